@@ -11,7 +11,8 @@
    C01 (builder output is a well-formed FST with content [spec_content]) applied to the accepted
    calls: by [C06_rejected_leave_no_trace_build] the bytes are those of from_iter over
    [accepted_ops None ops]. *)
-Require Import FstV.Base FstV.Builder FstV.Fst FstV.proofs.BuilderBasics.
+Require Import FstV.Base FstV.Builder FstV.Format FstV.CodecSpec FstV.Fst.
+Require Import FstV.proofs.BuilderInv FstV.proofs.BuilderBasics FstV.proofs.BuilderNoPanic.
 
 (* one call, any builder state (reachable or not).  Clause 2 needs no "and it is not the duplicate
    case": key_ltb k l = true already excludes k = l.  Clause 5 is the acceptance criterion of the
@@ -96,6 +97,59 @@ Theorem C06_extend_stops_at_first_error : forall ops b,
   (forall e, snd (run_extend b ops) = Err e -> is_order_err e).
 Proof. exact extend_stops_at_first_error. Qed.
 
+(* ---------- closed forms: no "no call panicked" premise ----------
+   The builder model cannot panic on inputs within the bounds below, whatever mix of valid,
+   duplicate, smaller and empty keys it is fed: the full builder invariant (proofs/BuilderInv.v,
+   kept by every accepted call: BuilderProofs4.apply_op_ok, with the codec laws proved in
+   NodeCodec.v) survives rejected calls because they return the same state.  Bounds: key bytes
+   < 256 and values < 2^64 (what u8 / u64 give for free), and the size budget of C01
+   ([size_ok_ops]: NODE_MAX * (1 + total key bytes) + 100 < 2^64, so that no address wraps) over
+   the ACCEPTED calls only — rejected calls cost nothing. *)
+Definition ops_in_range (ops : list op) : Prop :=
+  Forall (fun o => Forall (fun b => b < 256) (op_key o) /\ op_val o < U64) ops.
+
+Theorem C06_calls_never_panic : forall ty rows cols ops,
+  ops_in_range ops -> size_ok_ops (accepted_ops None ops) ->
+  Forall (fun r => r <> Panic) (snd (run_calls (new_builder ty rows cols) ops)).
+Proof. exact calls_never_panic. Qed.
+
+(* the budget over all calls is enough *)
+Theorem C06_size_ok_accepted : forall ops last, size_ok_ops ops -> size_ok_ops (accepted_ops last ops).
+Proof. exact size_ok_accepted. Qed.
+
+Theorem C06_calls_results_closed : forall ty rows cols ops,
+  ops_in_range ops -> size_ok_ops (accepted_ops None ops) ->
+  snd (run_calls (new_builder ty rows cols) ops) = spec_calls None ops.
+Proof. exact calls_results_closed. Qed.
+
+(* after any such session, finish writes exactly the bytes of from_iter over the accepted calls,
+   and (C01, build_ops_correct) those bytes are a well-formed FST whose content is the content
+   specified for the whole session: exactly the accepted keys and values *)
+Theorem C06_rejected_leave_no_trace_closed : forall summer ty rows cols ops,
+  ops_in_range ops -> size_ok_ops (accepted_ops None ops) ->
+  ty < U64 -> (forall l, summer l < 4294967296) ->
+  exists bs p,
+    b_finish summer (fst (run_calls (new_builder ty rows cols) ops)) = Ok bs /\
+    build_ops summer ty rows cols (accepted_ops None ops) = Ok bs /\
+    spec_parse bs = Some p /\
+    p_version p = 3 /\ p_ty p = ty /\ p_len p = len (spec_content None ops []) /\
+    p_content p = spec_content None ops [] /\
+    p_checksum p = Some (summer (firstn (length bs - 4) bs)) /\
+    wf_fst_b bs = true.
+Proof. exact rejected_leave_no_trace_closed. Qed.
+
+(* extend_iter / extend_stream / from_iter never panic, stop at the first rejected item with the
+   specified ordering error, in the state reached by the accepted prefix; only the prefix is
+   executed, so only the prefix counts for the budget *)
+Theorem C06_extend_closed : forall ty rows cols ops,
+  ops_in_range ops -> size_ok_ops (fst (accepted_prefix None ops)) ->
+  let b0 := new_builder ty rows cols in
+  run_extend b0 ops = (fst (run_calls b0 (fst (accepted_prefix None ops))), snd (accepted_prefix None ops)) /\
+  Forall (fun r => r = Ok tt) (snd (run_calls b0 (fst (accepted_prefix None ops)))) /\
+  snd (run_extend b0 ops) <> Panic /\
+  (forall e, snd (run_extend b0 ops) = Err e -> is_order_err e).
+Proof. exact extend_closed. Qed.
+
 (* non-vacuity: a map session with an out-of-order and a duplicate insert in the middle, and a
    set session with a repeat; the rejected calls change nothing and the bytes are those of the
    accepted calls alone *)
@@ -118,10 +172,19 @@ Example C06_nonvacuous_set :
   build_ops (fun _ => 0) 0 4 2 [OpAdd [97]; OpAdd [98]].
 Proof. vm_compute. split; reflexivity. Qed.
 
+(* the premises of the closed forms hold of the example session *)
+Example C06_closed_nonvacuous :
+  ops_in_range ex_ops /\ size_ok_ops (accepted_ops None ex_ops) /\ size_ok_ops (fst (accepted_prefix None ex_ops)).
+Proof. split; [repeat constructor|split; reflexivity]. Qed.
+
 Check C06_reject_state_identity : forall b o b' e, apply_op b o = (b', Err e) -> b' = b /\ is_order_err e.
 Check C06_calls_state_accepted : forall ops b,
   fst (run_calls b ops) = fst (run_calls b (accepted_ops (b_last b) ops)).
 Check C06_extend_first_error : forall ops b, snd (run_extend b ops) = first_non_ok (snd (run_calls b ops)).
+Check C06_calls_never_panic : forall ty rows cols ops,
+  Forall (fun o => Forall (fun b => b < 256) (op_key o) /\ op_val o < U64) ops ->
+  NODE_MAX * (1 + key_bytes (map op_key (accepted_ops None ops))) + 100 < U64 ->
+  Forall (fun r => r <> Panic) (snd (run_calls (new_builder ty rows cols) ops)).
 Print Assumptions C06_reject_iff.
 Print Assumptions C06_reject_state_identity.
 Print Assumptions C06_calls_results_spec.
@@ -134,5 +197,11 @@ Print Assumptions C06_spec_content_accepted.
 Print Assumptions C06_spec_calls_accepted.
 Print Assumptions C06_extend_first_error.
 Print Assumptions C06_extend_stops_at_first_error.
+Print Assumptions C06_calls_never_panic.
+Print Assumptions C06_size_ok_accepted.
+Print Assumptions C06_calls_results_closed.
+Print Assumptions C06_rejected_leave_no_trace_closed.
+Print Assumptions C06_extend_closed.
+Print Assumptions C06_closed_nonvacuous.
 Print Assumptions C06_nonvacuous_map.
 Print Assumptions C06_nonvacuous_set.
